@@ -23,6 +23,8 @@ func multiRun(rng *rand.Rand, n int, steps int) {
 	kafka.VerifGroupResetConnIDs()
 	kafka.VerifStart()
 	kafka.VerifSetSink(log.Sink)
+	wire := rng.Intn(3) == 0
+	kafka.VerifSetGroupWire(wire)
 	kafka.VerifSetGroupHandler(mock.Handle)
 	var ms []*scenario
 	add := func() {
@@ -225,7 +227,7 @@ func multiRun(rng *rand.Rand, n int, steps int) {
 		}
 	}
 	for k, s := range ms {
-		tr, _ := canon(per[k], topics)
+		tr, _ := canon(per[k], topics, wire)
 		st := "ok"
 		if len(s.status) > 0 {
 			st = strings.Join(s.status, ",")
